@@ -323,6 +323,9 @@ ALTER = ('std::io::BufRead::consume', 'buffer_redux::BufReader::make_room', 'buf
          'std::io::Seek::seek')
 
 
+_PROG = [None]
+
+
 def is_eof_test(body, blk, du):
     """switch whose condition compares something derived from buffer().len() with capacity()"""
     t = body.blocks[blk].term
@@ -335,13 +338,14 @@ def is_eof_test(body, blk, du):
             calls = [x[1].callee for x in deps if x[0] == 'call' and x[1].callee]
             has_cap = any(c.is_('buffer_redux::BufReader::capacity') for c in calls)
             has_len = any(c.path.endswith('slice::len') or c.name == 'len' for c in calls)
-            has_buf = any(c.is_('buffer_redux::BufReader::buffer') or c.name == 'get_buf' for c in calls)
+            has_buf = any(is_buffer_call(_PROG[0], c) for c in calls)
             if has_cap and has_len and has_buf:
                 return True
     return False
 
 
 def buf_rules(prog, R, refill):
+    _PROG[0] = prog
     bodies = [b for b in prog.bodies.values() if not is_derive(b) and (b.file.endswith('fasta.rs') or b.file.endswith('fastq.rs') or b.file.endswith('lib.rs'))]
     # ---- BUF-1
     for b in bodies:
